@@ -150,6 +150,10 @@ PURE_ROOTS = {"np", "numpy", "math", "KDTree", "AABB", "Vec", "float", "int", "l
               "isinstance", "deque", "PriorityQueue", "distance", "norm", "check_argument", "Exception"}
 
 
+MUTATORS = {"append", "appendleft", "pop", "popleft", "push", "get", "extend", "add", "remove", "clear", "insert", "sort",
+            "update", "discard", "seed", "shuffle"}
+
+
 def bound_names(fn):
     """Local names of a function in order of first binding (parameters excluded)."""
     params = {a.arg for a in fn.args.args}
@@ -221,8 +225,9 @@ def rw(st):
                 writes.add(r)
         elif isinstance(n, ast.Call) and isinstance(n.func, ast.Attribute):
             r = root_of(n.func)
-            if r and r not in PURE_ROOTS:
-                writes.add(r)  # a method call may mutate its receiver
+            m = n.func.attr
+            if r and r not in PURE_ROOTS and (m in MUTATORS or (r == "self" and m.startswith("_"))):
+                writes.add(r)  # the call may mutate its receiver (containers; private methods of self: ids, RNG)
         if isinstance(n, (ast.Return, ast.Continue, ast.Break, ast.Raise)):
             writes.add("<control>")
             reads.add("<control>")
@@ -437,6 +442,9 @@ def gen():
         rev = "false"
     else:
         T.fail(KD, qb[5], "return of query not recognised")
+    sz = T.find_def(tree, "KDTree.Leaf.size", KD)
+    expect([u(s) for s in T.body_nodoc(sz)] == ["return self.points.size"] and [u(d) for d in sz.decorator_list] == ["property"], KD, sz,
+           "Leaf.size is not the property `return self.points.size`")
     il = T.find_def(tree, "KDTree.is_leaf", KD)
     expect([u(s) for s in T.body_nodoc(il)] == ["return isinstance(self.nodes[node_id], KDTree.Leaf)"], KD, il, "is_leaf changed")
     out.append("(* kdtree.py KDTree.query *)")
@@ -516,6 +524,14 @@ def gen():
            and [u(d) for d in df.args.defaults] == ["'l2'"], GE, df, "distance is not norm(B-A, which)")
     out.append("(* aabb.py AABB.distance *)")
     out.append("Definition box_excess (mini maxi : ext) (pt : Z) : ext := %s." % box_excess)
+
+    # the candidate heap of query() is mouette.utils.PriorityQueue: its comparator/plumbing must still have the shape
+    # property C20 is proved about (the model here abstracts it as 'pop removes a farthest candidate')
+    from . import c20 as _c20
+    pq = _c20.gen()
+    import hashlib
+    body = "".join(l for v in pq.values() for l in v.splitlines(True) if l.startswith("Definition"))
+    parts.append(("priority_queue.py (definitions emitted by the C20 translator)", hashlib.sha256(body.encode()).hexdigest()[:16]))
 
     text = T.header("C11: decision expressions and plumbing of KDTree / AABB.distance", parts)
     text += "From Coq Require Import ZArith List Bool.\nImport ListNotations.\nRequire Import MV.C11.Ext.\nOpen Scope Z_scope.\n\n"
